@@ -338,6 +338,7 @@ def run_C04(ctx, rng, tier, res, known):
         cases += gens.gen_thresholds(rng, f)
         cases += gens.gen_boundary(rng, f, 1500 if q else 30000)
         cases += gens.gen_seams(rng, f)[:: (3 if q else 1)]
+        cases += gens.gen_table_index_sweep(f)
         # every big-integer code path end to end: long carry chains and zero-limb runs in the multiplication
         # by 5^135, integer ties across limb boundaries, digit cuts
         cases += gens.gen_near_tie_posexp(rng, f, 600 if q else 20000)
@@ -467,6 +468,7 @@ def run_C08(ctx, rng, tier, res, known):
     cases = []
     for f in ("f32", "f64"):
         cases += gens.gen_garbage(rng, f, 4000 if q else 150000)
+        cases += gens.gen_table_index_sweep(f)
     lines = [c[0] for c in cases]
     impl, model = _mod().run_all(lines, ctx.cfgs, ctx.profiles)
     nval = npanic = 0
@@ -511,7 +513,7 @@ def site_log_correspondence(ctx, rng, res, garbage_lines, n):
     sel = base if len(base) <= n // 2 else rng.sample(base, n // 2)
     lines = ["pfl" + l[2:] for l in sel]
     for f in ("f32", "f64"):
-        for line, fam in gens.gen_boundary(rng, f, n // 8) + gens.gen_random_valid(rng, f, n // 8) + gens.gen_bigint_ties(rng, f, n // 16):
+        for line, fam in gens.gen_boundary(rng, f, n // 8) + gens.gen_random_valid(rng, f, n // 8) + gens.gen_bigint_ties(rng, f, n // 16) + gens.gen_table_index_sweep(f):
             lines.append("pfl" + line.split(" ## ")[0][2:])
         # inputs whose digit cut ends a 19-digit chunk (f32: 114 = 6 x 19), i.e. the table's last entry is consumed
         lng = [x for x in _mod().cases_long(rng, "quick", f) if len(x[0]) < 3000]
